@@ -195,6 +195,40 @@ theorem lowAdj_nonneg_strides (shape : List Nat) (strides : List Int) (h : ∀ s
       simp only [lowAdj, hs, if_false, Int.zero_add]
       exact ih ss (fun x hx => h x (List.mem_cons_of_mem _ hx))
 
+theorem lowAdj_nonpos (shape : List Nat) (strides : List Int) (hpos : ∀ n ∈ shape, 1 ≤ n) :
+    lowAdj shape strides ≤ 0 := by
+  induction shape generalizing strides with
+  | nil => simp [lowAdj]
+  | cons n ns ih =>
+    cases strides with
+    | nil => simp [lowAdj]
+    | cons s ss =>
+      have hn : (1 : Int) ≤ n := by have := hpos n (by simp); omega
+      have hrest := ih ss (fun x hx => hpos x (List.mem_cons_of_mem _ hx))
+      simp only [lowAdj]
+      by_cases hs : s < 0
+      · simp only [hs, if_true]
+        have : ((n : Int) - 1) * s ≤ 0 := Int.mul_nonpos_of_nonneg_of_nonpos (by omega) (by omega)
+        omega
+      · simp only [hs, if_false]; omega
+
+theorem highAdj_nonneg (shape : List Nat) (strides : List Int) (hpos : ∀ n ∈ shape, 1 ≤ n) :
+    0 ≤ highAdj shape strides := by
+  induction shape generalizing strides with
+  | nil => simp [highAdj]
+  | cons n ns ih =>
+    cases strides with
+    | nil => simp [highAdj]
+    | cons s ss =>
+      have hn : (1 : Int) ≤ n := by have := hpos n (by simp); omega
+      have hrest := ih ss (fun x hx => hpos x (List.mem_cons_of_mem _ hx))
+      simp only [highAdj]
+      by_cases hs : s < 0
+      · simp only [hs, if_true]; omega
+      · simp only [hs, if_false]
+        have : 0 ≤ ((n : Int) - 1) * s := Int.mul_nonneg (by omega) (by omega)
+        omega
+
 theorem cStrides_nonneg (shape : List Nat) (itemsize : Nat) : ∀ s ∈ cStrides shape itemsize, 0 ≤ s := by
   induction shape with
   | nil => simp [cStrides]
